@@ -287,6 +287,12 @@ def configs(ctx):
         out.append((f"{mode}-2keys-1addr",
                     dict(mode=mode, keys=("K1", "K2"), addrs=("A1",), ttls=(1, 2, INF), advs=base_advs + ("jump",),
                          fine=ctx.pick(1, 2), reject=True), CLOSURE))
+        # the same small alphabet with the clock starting shortly before 0xFFFFFF s (the value of the infinite-TTL marker)
+        # and shortly before 2^24 s: deadlines are times, the marker is a duration
+        for origin in (0xFFFFFF - 3, 2 ** 24 - 2):
+            out.append((f"{mode}-1key-clock-origin-{origin}",
+                        dict(mode=mode, keys=("K1",), addrs=("A1",), ttls=(1, 2, 3, INF), advs=(None, "half", "next"),
+                             fine=0, origin=float(origin)), CLOSURE))
         # two keys, two addresses, the long TTLs
         out.append((f"{mode}-2keys-2addrs",
                     dict(mode=mode, keys=("K1", "K2"), addrs=("A3", "A4"), ttls=(1, 3, 0xFFFFFE, INF), advs=base_advs,
